@@ -9,7 +9,7 @@ CONSTANTS Kinds,
           FaultSchemes,     \* ... with the faulted texts of their canonical text
           WideSchemes,      \* ... also with the faults of the fully written-out upper-case text
           NameSchemes,      \* ... with faulted reverse names
-          FaultMod, FaultRem, NameMod,   \* only the patterns m with m % Mod = FaultRem % Mod get faulted texts / names
+          FaultMod, FaultRem, NameMod, WideMod,   \* only the patterns m with m % Mod = FaultRem % Mod get faulted texts / names
           FaultOctets,      \* IPv4 / embedded addresses over these octets get faulted texts and names
           E164Alphabet, E164Len
 VARIABLES kind, key, out, fin
@@ -25,12 +25,12 @@ A6(m, s) ==
     IN  [k |-> "a6", a |-> a,
          sp |-> IF s \in SpellSchemes THEN Spellings(a) ELSE {},
          fl |-> (IF s \in FaultSchemes /\ m % FaultMod = FaultRem % FaultMod THEN UNION {Faults(b) : b \in Canon6(a)} ELSE {})
-                \cup (IF s \in WideSchemes /\ m % FaultMod = FaultRem % FaultMod THEN Faults(Spell(Grp(a), 8, 1, 0, TRUE, TRUE)) ELSE {}),
+                \cup (IF s \in WideSchemes /\ m % WideMod = FaultRem % WideMod THEN Faults(Spell(Grp(a), 8, 1, 0, TRUE, TRUE)) ELSE {}),
          nm |-> {rn, Rev6(a, Ip6Up)},
          nf |-> IF s \in NameSchemes /\ m % NameMod = FaultRem % NameMod THEN NameFaults(rn, 32) ELSE {}]
 Emb(a) ==
     [k |-> "a6", a |-> a,
-     sp |-> IF Small(Low32(a)) THEN Spellings(a) ELSE Canon6(a),
+     sp |-> IF Small(Low32(a)) \/ a \in Special6 THEN Spellings(a) ELSE Canon6(a),
      fl |-> IF Small(Low32(a)) THEN UNION {Faults(b) : b \in Canon6(a)} ELSE {},
      nm |-> {Rev6(a, Ip6)},
      nf |-> {}]
@@ -48,11 +48,11 @@ E(t) == [k |-> "e164", text |-> t,
 
 Keys(kd) == CASE kd = "a6" -> 0..255
               [] kd = "emb" -> QuadOctets
-              [] kd = "a4" -> V4Octets
+              [] kd = "a4" -> V4Octets \cup McOctets
               [] kd = "e164" -> E164Alphabet \cup {0}
 Outs(kd, k) ==
     CASE kd = "a6" -> {A6(k, s) : s \in IF k = 0 THEN {1} ELSE Schemes}
-      [] kd = "emb" -> {Emb(a) : a \in {b \in EmbeddedAddrs : b[13] = k}}
+      [] kd = "emb" -> {Emb(a) : a \in {b \in EmbeddedAddrs : b[13] = k} \cup (IF k = 0 THEN Special6 ELSE {})}
       [] kd = "a4" -> {A4(a) : a \in {b \in U4 : b[1] = k}}
       [] kd = "e164" -> {E(t) : t \in {u \in SeqsUpTo(E164Alphabet, E164Len) : IF u = <<>> THEN k = 0 ELSE u[1] = k}}
 
